@@ -178,7 +178,8 @@ class Contract:
     def __init__(self, prop, target, params, requires=(), ensures=None, raises=None, loops=None, yields=None,
                  yield_checks=None, cases=None, result=None, callees=(), name=None, setup=None, replay=None,
                  replay_args=None, assumptions=(), self_obj=None, timeout_ms=None, crosscheck=None,
-                 call_raises_exact=False, exit_checks=None, frame_locals=False, pre_state=None):
+                 call_raises_exact=False, exit_checks=None, frame_locals=False, pre_state=None,
+                 replay_ensures=None, bounded=None):
         self.prop = prop
         self.target = target
         self.relpath, self.qualname = target.split('::')
@@ -202,6 +203,9 @@ class Contract:
         self.crosscheck = crosscheck
         self.exit_checks = exit_checks or {}
         self.pre_state = pre_state
+        # clauses evaluated only natively during replay (computable restatements of per-iteration obligations)
+        self.replay_ensures = dict(replay_ensures or {})
+        self.bounded = bounded     # text of the bound when this unit is a bounded stand-in (not counted as proved)
 
     @property
     def uid(self):
@@ -266,16 +270,17 @@ class Verifier:
             eng.callee_contracts[cc.dotted(loader)] = cc
         return eng
 
-    def run(self):
+    def run(self, cases=None):
         c = self.c
         t0 = time.time()
         res = UnitResult(unit=c.uid, target=c.target, obligations=[], paths=0, errors=[], trusted=[], sources={},
                          assumptions=list(c.assumptions), contracts_used=[])
         try:
             for ci, case in enumerate(c.cases):
-                self.run_case(ci, case, res)
+                if cases is None or ci in cases:
+                    self.run_case(ci, case, res)
         except Unsupported as e:
-            res['errors'].append('unsupported: %s' % e)
+            res['errors'].append('unsupported: %s' % e + ('\n' + traceback.format_exc() if os.environ.get('VERIF_DEBUG') else ''))
         except Exception as e:
             res['errors'].append('checker exception: %s\n%s' % (e, traceback.format_exc()))
         res['wall_s'] = round(time.time() - t0, 3)
@@ -289,6 +294,14 @@ class Verifier:
             c.setup(eng)
         fref = loader.funcref(c.relpath, c.qualname)
         loader.register_exceptions(eng, c.relpath)
+        loop_ids = {}
+        for n in ast.walk(fref.node):
+            if isinstance(n, (ast.For, ast.While)):
+                loop_ids[id(n)] = None
+        # ast.walk is breadth-first; order loops by source position instead
+        loops_sorted = sorted((n for n in ast.walk(fref.node) if isinstance(n, (ast.For, ast.While))),
+                              key=lambda n: (n.lineno, n.col_offset))
+        loop_ids = {id(n): i for i, n in enumerate(loops_sorted)}
         groups = {}     # obligation name -> list of instances
         order = []
         schedule = []
@@ -307,6 +320,9 @@ class Verifier:
             try:
                 shapes = dict(c.params)
                 shapes.update(case)
+                case_yields = shapes.pop('__yields__', c.yields)
+                case_requires = shapes.pop('__requires__', [])
+                case_yield_checks = shapes.pop('__yield_checks__', {})
                 for name, spec in shapes.items():
                     params[name] = make_param(eng, name, spec)
                 env = dict(params)
@@ -315,22 +331,25 @@ class Verifier:
                 fr = Frame(c.qualname, fref.mod, env)
                 fr.is_top = True
                 fr.loopspecs = c.loops
+                fr.loop_ids = loop_ids
                 fr.cls = fref.cls
                 if c.pre_state:
                     c.pre_state(eng, fr)
-                for r in c.requires:
+                for r in list(c.requires) + list(case_requires):
                     eng.assume(eng.ztruth(eng.spec_eval(r, fr)))
                 if eng.solver.check() == z3.unsat:
                     raise PathEnd()
                 requires_sat = True
                 if loader.is_generator(fref.node):
-                    if c.yields is None:
+                    if case_yields is None:
                         fr.yields = []
                     else:
-                        fr.yields = SymSeq.empty(c.yields[0], c.yields[1])
-                if c.yield_checks:
-                    def on_yield(eng_, val, fr_, _c=c):
-                        for nm, text in _c.yield_checks.items():
+                        fr.yields = SymSeq.empty(case_yields[0], case_yields[1])
+                ychecks = dict(c.yield_checks)
+                ychecks.update(case_yield_checks)
+                if ychecks:
+                    def on_yield(eng_, val, fr_, _y=ychecks):
+                        for nm, text in _y.items():
                             g = eng_.spec_eval(text, fr_, extra={'yv': val})
                             eng_.check('yield.' + nm, g, kind='yield')
                     eng.on_yield = on_yield
@@ -349,7 +368,9 @@ class Verifier:
                     result = outcome[1]
                     if fr.yields is not None:
                         result = fr.yields
-                    extra = {'result': result}
+                    # parameters in postconditions denote their values at entry (python may rebind them)
+                    extra = dict(params)
+                    extra['result'] = result
                     if fr.yields is not None:
                         extra['Y'] = fr.yields
                     for nm, text in c.ensures.items():
@@ -568,6 +589,7 @@ def replay_counterexample(c, ob_rec):
     observed = {'outcome': out[0], 'value': jsonable(to_engine_value(out[1])) if out[0] == 'return' else out[1:]}
     clause = ob_rec.get('clause', '')
     failed = []
+    undecided = []
     if out[0] == 'raise':
         allowed = False
         for exc, cond in c.raises.items():
@@ -582,7 +604,7 @@ def replay_counterexample(c, ob_rec):
         extra = {'result': result}
         if c.yields is not None or isinstance(out[1], list):
             extra['Y'] = result
-        todo = list(c.ensures.items())
+        todo = list(c.ensures.items()) + list(c.replay_ensures.items())
         if clause.startswith('post.'):
             nm = clause[5:]
             todo.sort(key=lambda kv: kv[0] != nm)
@@ -590,6 +612,10 @@ def replay_counterexample(c, ob_rec):
             ok, why = eval_clause_concrete(c, text, inputs, extra)
             if ok is False:
                 failed.append({'clause': 'post.' + nm, 'spec': text, 'why': why})
+            elif ok is None:
+                undecided.append({'clause': 'post.' + nm, 'why': why})
     if failed:
         return {'status': 'confirmed', 'observed': observed, 'failed': failed, 'inputs': jsonable(inputs)}
+    if undecided:
+        return {'status': 'replay-undecided', 'observed': observed, 'undecided': undecided, 'inputs': jsonable(inputs)}
     return {'status': 'not-reproduced', 'observed': observed, 'inputs': jsonable(inputs)}
